@@ -373,7 +373,7 @@ def run(ctx, args):
         return replay_file(ctx, args.replay)
     rng = ctx.rng
     quick = ctx.tier == "quick"
-    n_x = 1000 if quick else 25000
+    n_x = 800 if quick else 25000
     n_xz = 80 if quick else 1000
     n_path = 2000 if quick else 100000
     n_lib = 40 if quick else 600
@@ -388,11 +388,22 @@ def run(ctx, args):
     os.makedirs(hs, exist_ok=True)
     henv = dict(os.environ, C20_SCRATCH=hs)
 
-    def real(lines, timeout=3600):
+    def real1(lines, timeout=3600):
         out, rc, err = run_lines([harness], lines, env=henv, timeout=timeout)
         if len(out) != len(lines):
             raise RuntimeError("harness died: %d/%d answers\n%s" % (len(out), len(lines), err[-2000:]))
         return out
+
+    def real(lines, timeout=3600, workers=1):
+        """the cases are independent (own scratch directory each): several harness processes share the stream"""
+        if workers <= 1 or len(lines) < 4 * workers:
+            return real1(lines, timeout)
+        from concurrent.futures import ThreadPoolExecutor
+        size = (len(lines) + workers - 1) // workers
+        chunks = [lines[i:i + size] for i in range(0, len(lines), size)]
+        with ThreadPoolExecutor(max_workers=workers) as ex:
+            parts = list(ex.map(lambda c: real1(c, timeout), chunks))
+        return [o for part in parts for o in part]
 
     def model(lines):
         out, rc, err = run_lines([modeld], lines)
@@ -447,7 +458,7 @@ def run(ctx, args):
         ctx.assumptions.append("tar/xz not installed: extractTarXz not exercised")
 
     rlines = ["x %s %s" % (fmt, enc_entries(es)) for (_, fmt, es) in cases]
-    routs = real(rlines)
+    routs = real(rlines, workers=6)
     ctx.log("%d archives extracted by the real code" % len(rlines))
     midx = [i for i, c in enumerate(cases) if c[1] != "txz"]
     mouts_l = model(["x %s %s %s" % (cfg, cases[i][1], enc_entries(cases[i][2])) for i in midx])
